@@ -5,6 +5,7 @@
 -/
 import CorgiProofs.EngineTop
 import CorgiModel.Step
+import CorgiProofs.Reachable
 
 set_option linter.unusedSectionVars false
 
@@ -29,7 +30,15 @@ theorem C14_fresh_parameter (σ : State S) (t : Tensor S) :
       r.2.buf = σ.bufs.size := by
   simp [State.alloc]
 
+
+/-- **No leak across iterations, for every training history**: after any sequence of `fwd`, `bwd`,
+    `update` (and any other) commands, the engine state the next iteration starts from is clean. -/
+theorem C14_no_leak_reachable (cs : List (Cmd S)) :
+    (∀ i, (run cs ({} : State S)).cnt.getD i 0 = 0) ∧ (∀ i, (run cs ({} : State S)).delta.getD i none = none) :=
+  (reachable_good cs).heap.clean
+
 end Corgi
 
 #print axioms Corgi.C14_no_leak
 #print axioms Corgi.C14_fresh_parameter
+#print axioms Corgi.C14_no_leak_reachable
